@@ -127,3 +127,19 @@ def extract_agreement(ctx, pid, cmds, outs, k=20, max_size=4000):
                 n, coq_sx(list(cmds[i])), coq_sx(outs[i])))
     ctx.coq_file(path)
     return len(pick)
+
+
+def coqchk(ctx, modules, timeout=900):
+    """thorough tier (DESIGN 4.6): re-check the compiled proofs with the independent checker; obligation = it accepts them and
+    reports no axiom / type-in-type / unsafe fixpoint / assumed positivity."""
+    import time
+    from harness import common as C
+    t = time.time()
+    rc, out = C.run(["coqchk", "-silent", "-o", "-Q", os.path.join(C.COQ, "theories"), "Pq"] + list(modules), timeout=timeout, cwd=C.COQ)
+    summary = out[out.find("CONTEXT SUMMARY"):] if "CONTEXT SUMMARY" in out else out[-1500:]
+    clean = rc == 0 and all(("* %s: <none>" % k) in summary for k in (
+        "Axioms", "Constants/Inductives relying on type-in-type", "Constants/Inductives relying on unsafe (co)fixpoints",
+        "Inductives whose positivity is assumed"))
+    ctx.obligation("coqchk -o %s: accepted, no axioms" % " ".join(modules), clean, summary[-1500:])
+    ctx.checker_cmds.append("coqchk -silent -o -Q coq/theories Pq %s  (%.1fs)" % (" ".join(modules), time.time() - t))
+    return clean
